@@ -373,6 +373,7 @@ pub fn run(tier: Tier) -> i32 {
     rep.sample(json!({"config":"ping-is-subdomain-of-main","listener":"h2","sni":"x.m.t","alpn":["http/1.1"],"expected":"refused (no common protocol)"}));
     rep.assume("an SNI that is both a configured alternative SNI and of the <credentials>.<main host> form is unconstrained; an empty credentials label is unconstrained");
     rep.assume("QUIC certificate switching and the TCP-side refusal of an h3 result are exercised through the real TLS path in C12, not here; RwLock atomicity of reload vs concurrent selects is trusted (each is one lock-protected operation)");
+    super::cq::c05_into(&mut rep);
     // scratch key files of the `validated-then-ping-key-corrupted` reloads
     if let Ok(rd) = std::fs::read_dir(std::env::temp_dir()) {
         let prefix = format!("ttv-c05-{}-", std::process::id());
